@@ -6,8 +6,9 @@ Bin packing: item count and algorithm structural; ALL sizes and the capacity are
 
 import importlib
 import itertools
+import math
 
-from symx.core import AND, OR, NOT, IMPLIES, ITE, IFF, SNum, ssum
+from symx.core import AND, OR, NOT, IMPLIES, ITE, IFF, SNum, ssum, sym_int, Unmodelled
 
 PROPERTY = "C16"
 FILES = ["solvor/knapsack.py", "solvor/bin_pack.py", "solvor/utils/validate.py"]
@@ -16,14 +17,14 @@ FUNCTIONS = ["solvor.knapsack.solve_knapsack", "solvor.knapsack._to_int_capacity
 BOUNDS = {
     "quick": "knapsack: every instance with n<=3 items, integer weights in 0..3, capacity in 0..5, minimize on/off, plus VERIF_SEED-sampled "
              "n=4 instances (weights 0..4, capacity 0..6) and a finite grid of decimal weights (multiples of 0.05..0.7, capacity <= 0.9) plus 4 (thorough: 47) adversarial decimal instances (k copies of capacity/k+delta, where integer scaling truncates); values "
-             "unbounded non-negative Reals. bin packing: n<=4 items, the four heuristics and their aliases, sizes and capacity unbounded Reals",
+             "unbounded non-negative Reals; _to_int_capacity on 0..3 (thorough 0..5) integer weights and an integer capacity that are unbounded SMT Ints. bin packing: n<=4 items, the four heuristics and their aliases, sizes and capacity unbounded Reals",
     "thorough": "knapsack n<=4 exhaustively (weights 0..3, capacity 0..6), n=5 sampled, larger decimal grid; bin packing n<=5",
 }
 OUTSIDE = "decimal weights outside the finite grid (the float->int scaling is executed concretely on the grid points only); float rounding of loads"
 ASSUMPTIONS = ["values non-negative (documented)", "floats modelled as exact reals; weights/capacities are concrete per work item",
                "bin packing optimum: explicit disjunction over all set partitions of the items (Bell(5)=52)"]
 STUBS = []
-GOALS = {"quick": ["knap.optimal", "knap.zero_capacity", "knap.minimize", "bin.multi", "bin.decreasing", "knap.decimal"],
+GOALS = {"quick": ["knap.scale_unit", "knap.optimal", "knap.zero_capacity", "knap.minimize", "bin.multi", "bin.decreasing", "knap.decimal"],
          "thorough": ["knap.optimal", "knap.zero_capacity", "bin.multi"]}
 
 
@@ -62,6 +63,24 @@ def h_knap(s, weights, capacity, minimize):
         s.goal("knap.minimize")
     if any(w != int(w) for w in weights):
         s.goal("knap.decimal")
+
+
+def h_scale(s, n):
+    """Unit obligation on the float->int scaling: for integer weights and an integer capacity of ANY magnitude (unbounded SMT Ints) the
+    DP must run on an exact image of the data - scale a positive whole number (1 today) and int_capacity == capacity * scale - which is what
+    makes "exact for integer weights and capacity" carry over from the small tables of h_knap to large capacities (solve_knapsack uses
+    nothing else from _to_int_capacity; a scale below 1 or a fractional one truncates integer weights)."""
+    mod = importlib.import_module("solvor.knapsack")
+    if not hasattr(mod, "_to_int_capacity"):
+        raise Unmodelled("solvor.knapsack._to_int_capacity no longer exists: the scaling obligation has to be re-anchored")
+    s.stub(mod, int=sym_int)
+    ws = [s.int("w%d" % i, 0, None) for i in range(n)]
+    cap = s.int("capacity", 0, None)
+    ic, scale = mod._to_int_capacity(cap, ws)
+    s.observe("scale", scale)
+    whole = scale == math.floor(scale) if not isinstance(scale, SNum) else scale == scale.__floor__()
+    s.check(AND(scale >= 1, whole, ic == cap * scale), "knap.integer_data_is_scaled_exactly", detail={"int_capacity": ic, "scale": scale})
+    s.goal("knap.scale_unit")
 
 
 def set_partitions(items):
@@ -128,6 +147,8 @@ def h_bin_validation(s):
 def items(tier, rng):
     out = [{"name": "bin_empty", "harness": "h_bin_validation", "params": {}}]
     q = tier == "quick"
+    for n in range(0, 4 if q else 6):
+        out.append({"name": "knap_scale_%d" % n, "harness": "h_scale", "params": {"n": n}})
     nmax = 3 if q else 4
     capmax = 5 if q else 6
     for n in range(1, nmax + 1):
